@@ -25,8 +25,13 @@ package antispoof
 //@   modifies nothing
 //@   ensures result == mac[0]*1099511627776 + mac[1]*4294967296 + mac[2]*16777216 + mac[3]*65536 + mac[4]*256 + mac[5]
 
+// bpfPuts / bpfDeletes count the writes made to kernel maps during the call (ghost counters kept
+// by the verifier's model of cilium/ebpf Map.Put/Update/Delete).
 //@ func (m *Manager) AddBinding
 //@   modifies m.subscribers
+//@   ghost bpfPuts mathint = 0
+//@   ghost bpfDeletes mathint = 0
+//@   ensures err == nil && old(m.bindings) != nil ==> bpfPuts == 1 && bpfDeletes == 0
 //@   ensures err == nil ==> binding.Mode == old(m.mode)
 //@   ensures err == nil && len(ipv4) == 4 ==> binding.IPv4Valid == 1 && binding.IPv4Addr == ipv4[0] + 256*ipv4[1] + 65536*ipv4[2] + 16777216*ipv4[3]
 //@   ensures err == nil && ipv4 == nil ==> binding.IPv4Valid == 0
@@ -40,3 +45,19 @@ package antispoof
 //@ func (m *Manager) SetMode
 //@   modifies m.mode
 //@   ensures m.mode == mode
+
+// A removed binding is removed from the kernel map whatever the control plane tracks locally:
+// exactly one delete is issued whenever the map is loaded.
+//@ func (m *Manager) RemoveBinding
+//@   requires len(mac) >= 6
+//@   modifies m.subscribers
+//@   ghost bpfPuts mathint = 0
+//@   ghost bpfDeletes mathint = 0
+//@   ensures old(m.bindings) != nil ==> bpfDeletes == 1 && bpfPuts == 0
+//@   ensures (mac[0]*1099511627776 + mac[1]*4294967296 + mac[2]*16777216 + mac[3]*65536 + mac[4]*256 + mac[5]) !in m.subscribers
+
+//@ func (m *Manager) AddBindingV6
+//@   ghost bpfPuts mathint = 0
+//@   ghost bpfDeletes mathint = 0
+//@   ensures err == nil && old(m.bindings) != nil ==> bpfPuts == 1 && bpfDeletes == 0
+//@   ensures err == nil && len(ipv6) == 16 ==> existing.IPv6Valid == 1 && existing.Mode == old(m.mode)
